@@ -183,6 +183,9 @@ def parseHttpResp (s : String) : Option HttpResp :=
       | "0" => some NetErr.none
       | "1" => some NetErr.temporary
       | "2" => some NetErr.permanent
+      -- the request is accepted and never answered: with a positive http.Client.Timeout (the only configuration it is
+      -- generated with) the attempt ends as a temporary error at the timeout (Model.httpAttemptTimed)
+      | "3" => some NetErr.temporary
       | _ => none)
     let (ct, b) ← (match body.toList with
       | ['e'] => some (false, Body.empty)
@@ -349,7 +352,11 @@ def upLine {α : Type} (parse : String → Option α) (classify : α → Outcome
              (if cancel == "-" then "" else ",cancel") ++ (if handled != "h0" then ",partial" else "") ++
              (match (opts.splitOn ",").find? (fun t => t.length == 2 && t.startsWith "t") with
               | some t => "," ++ t
-              | none => ""),
+              | none => "") ++
+             (match (opts.splitOn ",").find? (fun t => t.length == 2 && t.startsWith "c") with
+              | some t => "," ++ t
+              | none => "") ++
+             (if (resps.any (fun t => (t.splitOn ";").getD 2 "" == "3")) then ",stalled" else ""),
            model := modelStr }
   | _, _ => none
 
@@ -426,10 +433,86 @@ def shutLine (grpc : Bool) (inp obs : List String) : Option Verdict :=
     | _, _ => pure { agree := false, spec := "FAIL", nontrivial := true, branches := "badshut", model := modelStr }
   | _, _ => none
 
+/-! ### slow collector × client construction (`tmo`, harness/bb/otlpe2e/c14_tmo_test.go) -/
+
+/-- timeout source token: `-` absent, `a` 120 ms, `b` 900 ms, `x` unparsable (ignored) -/
+def tmoVal (tok : String) : Option Dur :=
+  match tok with
+  | "a" => some 120000000
+  | "b" => some 900000000
+  | _ => none
+
+def slowResTok : Spec.SlowRes → String
+  | .ok => "ok"
+  | .gaveUp => "gaveup"
+  | .deadline => "deadline"
+  | .otherErr => "err"
+  | .stuck => "stuck"
+
+/-- `tmo <gen> <exp> <path> <opt> <envs> <envg> <M ms> <k|inf> => <res> n<requests> f<band> e<band>`:
+the real exporter, built through the public API on the given construction path with the timeout from the given
+sources, against a collector that never answers the first k (or all) requests. The model run is
+`httpExportTimed` / `grpcStallExport` with the client assembled by `newHTTPClient` / `newGRPCClient`; the oracle is
+`Spec.slowOK` on the observation. `f`/`e` are wall-clock order relations (see the harness): `f` must be the band of
+the effective timeout (a timer never fires early), `e` at most that band. For `k = inf` the model runs on the
+fastest conceivable clock (attempts take exactly the timeout, waits nothing), which bounds the number of requests
+from above. -/
+def tmoLine (inp obs : List String) : Option Verdict :=
+  match inp, obs with
+  | [_, _, exp, path, opt, envs, envg, m, k], [res, nTok, fTok, eTok] => do
+    let grpc := exp.endsWith "g"
+    let pkg ← (match exp.toList.head? with
+      | some 't' => some "trace"
+      | some 'm' => some "metric"
+      | some 'l' => some "log"
+      | _ => none)
+    let mMs ← m.toNat?
+    let kOpt : Option Nat ← (if k == "inf" then some none else k.toNat?.map some)
+    let n ← (nTok.drop 1).toString.toNat?
+    let (eff, src) : Dur × String :=
+      match tmoVal opt, tmoVal envs, tmoVal envg with
+      | some t, _, _ => (t, "opt")
+      | none, some t, _ => (t, "spec")
+      | none, none, some t => (t, "gen")
+      | none, none, none => (10000000000, "dflt")
+    let band := if eff == 120000000 then "A" else if eff == 900000000 then "B" else "gt"
+    let cfg : Config := { enabled := true, initial := 10000000, maxInterval := 20000000,
+                          maxElapsed := (mMs : Int) * 1000000 }
+    let ores ← (match res with
+      | "ok" => some Spec.SlowRes.ok
+      | "elapsed" => some .gaveUp
+      | "would" => some .gaveUp
+      | "deadline" => some .deadline
+      | "err" => some .otherErr
+      | "stuck" => some .stuck
+      | _ => none)
+    let mrun : Option Run ←
+      (if grpc then do
+         let w ← wiringOf true pkg
+         pure (grpcStallExport cfg w { suppliedConn := path == "conn", dialOpts := 0, timeout := eff } [5000000])
+       else
+         let b : HttpBuild := { tls := path == "tls" || path == "tlsproxy" || path == "envcert",
+                                proxy := path == "proxy" || path == "tlsproxy" || pkg == "log", timeout := eff }
+         let script : List Served := match kOpt with
+           | some k => List.replicate k ⟨.fatal, none⟩ ++ [⟨.ok false, some 0⟩]
+           | none => List.replicate (cfg.maxElapsed / eff).toNat.succ.succ.succ ⟨.fatal, none⟩
+         some (httpExportTimed cfg b script (List.replicate script.length 0) none))
+    let (mRes, mAtt) : Spec.SlowRes × Nat := match mrun with
+      | none => (.stuck, 1)
+      | some r => (Spec.slowResOf r.result, r.attempts)
+    let attOK := if !grpc && kOpt.isNone then decide (1 ≤ n) && decide (n ≤ mAtt) else n == mAtt
+    let timeAgree := fTok == "f" ++ band && (eTok == "eA" || (eTok == "e" ++ band))
+    let agree := ores == mRes && attOK && timeAgree
+    pure { agree := agree, spec := bOK (Spec.slowOK grpc kOpt ores n), nontrivial := true,
+           branches := s!"{exp},{path},{src},{if kOpt.isSome then "slowthenok" else "alwaysslow"},{res}",
+           model := s!"{slowResTok mRes} n{mAtt} f{band}" }
+  | _, _ => none
+
 def stepLine (_ : Unit) (toks : List String) : Unit × Option Verdict :=
   let (inp, obs) := splitObs toks
   match inp.head? with
   | some "e2e14" => ((), e2eLine inp obs)
+  | some "tmo" => ((), tmoLine inp obs)
   | some "loop" => ((), loopLine inp obs)
   | some "wait" => ((), waitLine inp obs)
   | some "clsh" => ((), clshLine inp obs)
